@@ -151,7 +151,7 @@ def _work_mem(job):
         return dict(name=str(idx), verdict="error", solver="z3", time=time.time() - t0, model=None, reason=repr(e))
 
 
-def discharge(obls, timeout_ms=20000, jobs=None, fallback=True):
+def _discharge_base(obls, timeout_ms=20000, jobs=None, fallback=True):
     """every obligation: (1) non-linear abstraction (sound for 'unsat' only), (2) the exact VC, (3) an equivalent goal
     formulation / other assertion orders, (4) cvc5 / z3-4.8 on the SMT-LIB text.  Steps 1-3 run in forked workers that
     inherit the obligations (z3 terms) from this process."""
@@ -206,3 +206,11 @@ def discharge(obls, timeout_ms=20000, jobs=None, fallback=True):
         out.append(r)
     _SHARED.pop("obls", None)
     return out
+
+
+def discharge(obls, timeout_ms=20000, jobs=None, fallback=True):
+    """all stages of _discharge_base, then the seed/order portfolio (pyvc/portfolio.py) on what is still unknown"""
+    from . import portfolio
+
+    out = _discharge_base(obls, timeout_ms, jobs, fallback)
+    return portfolio.rescue(out, to_smt2, timeout_ms, jobs) if fallback else out
